@@ -551,9 +551,16 @@ def minimize_subcircuits(
             new_gate = new_subcircuit.outputs[i]
             output_labels_mapping[old_gate] = new_gate
 
+        all_outputs_mapped: bool = True
         for output in subcircuit.outputs:
             if output not in filtered_outputs:
-                negation_gate: Label = outputs_negation_mapping[output]
+                # Only an output that negates another *synthesized* output can be
+                # restored (through a NOT gate of the new subcircuit). An output equal
+                # to a leaf, to a negated leaf or to another output cannot.
+                negation_gate = outputs_negation_mapping.get(output)
+                if negation_gate not in output_labels_mapping:
+                    all_outputs_mapped = False
+                    break
                 new_gate = output_labels_mapping[negation_gate]
 
                 for user in new_subcircuit.get_gate_users(new_gate):
@@ -561,6 +568,13 @@ def minimize_subcircuits(
                         output_labels_mapping[output] = user
                         new_subcircuit.mark_as_output(user)
                         break
+                else:
+                    all_outputs_mapped = False
+                    break
+
+        if not all_outputs_mapped:
+            logger.debug("Some cone output can't be restored from the new subcircuit")
+            continue
 
         # Changing initial circuit
         new_circuit: Circuit = copy.deepcopy(circuit)
